@@ -39,7 +39,8 @@ EXHAUSTIVE = {'quick': False, 'thorough': False}
 FLOORS = {'quick': {'evaluations': 6000, 'distinct_nontrivial': 4000, 'monitors': {'M1.checked': 100000}},
           'thorough': {'evaluations': 80000, 'distinct_nontrivial': 40000, 'monitors': {'M1.checked': 500000}}}
 ASSUMPTIONS = ['unsorted spike vectors, spikes outside [0, n) and sample2unit=None are outside the quantifier',
-               'store lookups are judged on the channels the store holds for that spike']
+               'store lookups are judged on the channels the store holds for that spike',
+               'derived readers handed to the routes keep the sample type (operators that change it leave the declared dtype of the reader unchanged, which extraction trusts)']
 NSHARDS = 16
 FACTORS = [1, 2, 1.0, 0.5, 2.5]
 SDT = ['int64', 'int32', 'uint32', 'uint64']
